@@ -1,22 +1,7 @@
 // ===========================================================================
-// Shared specification vocabulary for unit EVAL (DESIGN.md section 5).
-// Hand-written.  Rank code: ace = 0 ... deuce = 12; smaller class = stronger.
+// Specification vocabulary for unit EVAL (DESIGN.md section 5).  Hand-written.
 // A *vector* q: Seq<u8> of length 13 gives the multiplicity of every rank code.
 // ===========================================================================
-
-pub open spec fn rank_code(r: Rank) -> int {
-    match r {
-        Rank::Ace => 0, Rank::King => 1, Rank::Queen => 2, Rank::Jack => 3, Rank::Ten => 4,
-        Rank::Nine => 5, Rank::Eight => 6, Rank::Seven => 7, Rank::Six => 8, Rank::Five => 9,
-        Rank::Four => 10, Rank::Trey => 11, Rank::Deuce => 12,
-    }
-}
-
-pub open spec fn suit_code(s: Suit) -> int {
-    match s { Suit::Spade => 0, Suit::Heart => 1, Suit::Diamond => 2, Suit::Club => 3 }
-}
-
-pub open spec fn card_code(c: Card) -> int { 4 * rank_code(c.0) + suit_code(c.1) }
 
 // ---------- counting over card sequences ----------
 
@@ -53,9 +38,6 @@ pub open spec fn suit_mult(cards: Seq<Card>, s: Suit) -> Seq<u8> {
     Seq::new(13, |r: int| cnt_card(cards, r, s) as u8)
 }
 
-pub open spec fn distinct_cards(cards: Seq<Card>) -> bool {
-    forall|i: int, j: int| 0 <= i < j < cards.len() ==> cards[i] != cards[j]
-}
 
 // ---------- vectors ----------
 
